@@ -30,7 +30,7 @@ PROP = {
     "assumptions": ENV_STUBS + ["stub: StatusChannelSender::try_send -> counter of zero-sized tokens (completion signal); natively the real channel is read"],
     "trusted": ["/verif/shim/collections.rs", "/verif/env, /verif/harness/env_*.rs"],
     "explanation": "C20: real Writer object, WaitForAcknowledgments arm of process_writer_command, update_ack_waiters.",
-    "technique": "Kani/CBMC bounded symbolic model checking of the real Writer object (process_writer_command, handle_ack_nack, reader_lost) with environment stubs",
-    "level_text": "SAT-solver verdict over all acknowledgment states and one following event inside the stated bounds.",
+    "technique": "Kani/CBMC bounded symbolic model checking of the real AckWaiter (inductive step from any pending set); Writer-object harnesses in the thorough tier only",
+    "level_text": "Quick tier: SAT-solver verdict over ANY pending set, awaited sequence number, acknowledging/lost reader and ACKNACK base for one step of the real AckWaiter (the unit that decides when wait_for_acknowledgments may report success). Thorough tier adds Writer-object harnesses that do not finish on this box (reported UNDECIDED).",
     "level_note": "QUICK TIER DECIDES ONLY THE WAITER KERNEL (AckWaiter::reader_acked_or_lost from any pending set). The Writer-object harnesses (wait command arm of process_writer_command, end-to-end ACKNACK) are listed in the thorough tier but did not finish under 14 GB on this box: the real code drops the completion channel's sender there, and the drop glue of std's mpmc channel / io::Error explodes CBMC's symbolic execution; they are reported as UNDECIDED in evidence when they do not finish. Sync timeout and async waker clauses are outside.",
 }
